@@ -29,6 +29,8 @@ pub enum Wl {
     W8,
     /// empty and one-byte streams (FIN-only frames), both directions
     W9,
+    /// long transfer (40 kB) that the receiver stops early
+    W10,
 }
 
 pub fn plans(w: Wl, read: ReadMode) -> (Plan, Plan) {
@@ -61,6 +63,10 @@ pub fn plans(w: Wl, read: ReadMode) -> (Plan, Plan) {
             s.datagrams = vec![20, 900];
         }
         Wl::W6 => c.streams = vec![uni(60_000, 8000)],
+        Wl::W10 => {
+            c.streams = vec![uni(40_000, 4000)];
+            s.stop = Some((0, 2500, 55));
+        }
         Wl::W9 => {
             c.streams = vec![uni(0, 1), uni(1, 1), bi(0, 1), uni(1300, 1300)];
             s.echo_len = Some(0);
@@ -502,6 +508,7 @@ pub fn wl_from_str(s: &str) -> Wl {
         "W6" => Wl::W6,
         "W8" => Wl::W8,
         "W9" => Wl::W9,
+        "W10" => Wl::W10,
         _ => crate::report::machinery(&format!("unknown workload {s}")),
     }
 }
@@ -540,6 +547,19 @@ pub fn ecase_pair(base: Instant, c: &ECase, devs: &crate::explore::Devs, alts: &
         },
     );
     let done = drive(&mut p, &c.script, c.max_steps, c.horizon);
+    // deliver whatever is still in flight (late duplicates, delayed originals) so that
+    // exactly-once oracles see it
+    let limit = p.w.t + Duration::from_secs(5);
+    let mut n = 0;
+    while done && !p.w.net.is_empty() && n < 3000 {
+        match p.w.next_event() {
+            Some((at, _)) if at <= limit => {
+                p.w.step();
+                n += 1;
+            }
+            _ => break,
+        }
+    }
     (p, done)
 }
 
@@ -621,4 +641,87 @@ pub fn replay_ecase(cases: &[ECase], args: &crate::report::Args, _alts: &[crate:
     }
     println!("{}", diagnose(&p));
     std::process::exit(0)
+}
+
+/// Event-discipline oracle over a whole run (C11): Finished at most once per stream and only
+/// after every byte written before finish() has been delivered to the peer endpoint; Stopped at
+/// most once per stream. Needs `keep_data`.
+pub fn event_discipline(p: &StdPair) -> Vec<(String, String)> {
+    use crate::sim::Rec;
+    use crate::wire::WFrame;
+    use std::collections::BTreeMap;
+    let mut out = vec![];
+    // delivered stream ranges per (sender node, stream id)
+    let mut delivered: BTreeMap<(usize, u64), Vec<(u64, u64)>> = BTreeMap::new();
+    let mut fin_delivered: BTreeMap<(usize, u64), bool> = BTreeMap::new();
+    let mut emitted: BTreeMap<u64, (usize, Vec<u8>, std::net::SocketAddr)> = BTreeMap::new();
+    let mut finished: BTreeMap<(usize, u64), u32> = BTreeMap::new();
+    let mut stopped: BTreeMap<(usize, u64), u32> = BTreeMap::new();
+    let written = |node: usize, sid: u64| -> Option<u64> {
+        let slot = if node == CLIENT { Some(p.client()) } else { p.server() };
+        slot.and_then(|s| s.app.obs.tx.get(&sid).map(|t| t.written))
+    };
+    for r in &p.w.recs {
+        match r {
+            Rec::Emit { node, idx, data, dst, ch: Some(_), .. } => {
+                emitted.insert(*idx, (*node, data.clone(), *dst));
+            }
+            Rec::Deliver { idx, node, routed: crate::sim::Routed::Conn(_), .. } if *node < 2 => {
+                if let Some((from, data, dst)) = emitted.get(idx) {
+                    if *from == *node {
+                        continue;
+                    }
+                    for (_, frames) in crate::ledger::decode(data, crate::ledger::cid_len_of(&p.w, *dst)) {
+                        for f in frames {
+                            if let WFrame::Stream { id, off, fin, data, .. } = f {
+                                delivered.entry((*from, id)).or_default().push((off, off + data.len() as u64));
+                                if fin {
+                                    fin_delivered.insert((*from, id), true);
+                                }
+                            }
+                        }
+                    }
+                }
+            }
+            Rec::Event { node, ev, t, .. } if *node < 2 => {
+                let num = |s: &str| -> Option<u64> {
+                    let i = s.find("StreamId(")? + 9;
+                    s[i..].split(')').next()?.parse().ok()
+                };
+                if ev.starts_with("Stream(Finished") {
+                    if let Some(sid) = num(ev) {
+                        let c = finished.entry((*node, sid)).or_insert(0);
+                        *c += 1;
+                        if *c > 1 {
+                            out.push(("finished-twice".into(), format!("node{node} got Finished for stream {sid} {} times", *c)));
+                        }
+                        // coverage of 0..written at this moment
+                        if let Some(w) = written(*node, sid) {
+                            let mut rs = delivered.get(&(*node, sid)).cloned().unwrap_or_default();
+                            rs.sort();
+                            let mut covered = 0u64;
+                            for (a, b) in rs {
+                                if a <= covered {
+                                    covered = covered.max(b);
+                                }
+                            }
+                            if covered < w || !fin_delivered.get(&(*node, sid)).copied().unwrap_or(false) {
+                                out.push(("finished-before-delivery".into(), format!("node{node} got Finished for stream {sid} at {t:?} when only bytes 0..{covered} of {w} (fin delivered: {}) had reached the peer", fin_delivered.get(&(*node, sid)).copied().unwrap_or(false))));
+                            }
+                        }
+                    }
+                } else if ev.starts_with("Stream(Stopped") {
+                    if let Some(sid) = num(ev) {
+                        let c = stopped.entry((*node, sid)).or_insert(0);
+                        *c += 1;
+                        if *c > 1 {
+                            out.push(("stopped-twice".into(), format!("node{node} got Stopped for stream {sid} {} times", *c)));
+                        }
+                    }
+                }
+            }
+            _ => {}
+        }
+    }
+    out
 }
